@@ -22,7 +22,7 @@ def same(vc, a, b):
         return vc.eq(a, b)
     if isinstance(a, float) or isinstance(b, float):
         return a == b
-    if type(a).__name__ in ("bytes", "SBytes", "bytearray") or type(b).__name__ in ("bytes", "SBytes", "bytearray"):
+    if type(a).__name__ in ("bytes", "SBytes", "bytearray", "SByteArray", "ZBytes") or type(b).__name__ in ("bytes", "SBytes", "bytearray", "SByteArray", "ZBytes"):
         if len(a) != len(b):
             return False
         return vc.eq(a, b)
